@@ -162,6 +162,9 @@ values are 1-based.
 
         col += 1
     else:
-        return None, None
+        if offset != len(text):
+            return None, None
+        # the position right after the last character: where a
+        # statement ends in a text without a final newline
 
     return line, col
